@@ -37,7 +37,7 @@ func runL1(p *l1Profile) func(r *core.Run) *core.Violation {
 
 func init() {
 	c10 := &l1Profile{Prop: "C10", Blocks: [2]int{8, 40}, MaxTx: 4, Periods: stdPeriods, Crash: 5,
-		W:       map[string]int{"create": 10, "deposit": 60, "send": 8, "propose": 4, "updProposer": 2, "params": 2, "recordBatch": 2},
+		W:       map[string]int{"create": 10, "deposit": 60, "send": 8, "propose": 4, "updProposer": 2, "params": 2, "recordBatch": 2, "multi": 6},
 		RegFee:  true,
 		NonTriv: func(w *l1World) bool { return w.succ["deposit"] >= 2 && len(w.m.Bridges) >= 1 }}
 	core.Register(&core.Scenario{ID: "C10", Level: "exploration", Run: runL1(c10), Components: l1Components,
@@ -49,7 +49,7 @@ func init() {
 	l1Assume := []string{"outer tx signatures are not verified; the signer is the declared signer field", "single block proposer", "the L2 side is represented by fabricated withdrawal sets committed by the independent prover"}
 
 	c01 := &l1Profile{Prop: "C01", Blocks: [2]int{10, 50}, MaxTx: 5, Periods: []time.Duration{time.Second, 10 * time.Second, time.Hour}, Crash: 5, DepFault: 6, GasAbort: 4, Byz: 25, RegFee: true,
-		W:       map[string]int{"create": 8, "deposit": 30, "send": 10, "propose": 14, "delete": 4, "claim": 30, "updProposer": 2, "updChallenger": 2, "batchInfo": 1, "params": 1},
+		W:       map[string]int{"create": 8, "deposit": 30, "send": 10, "propose": 14, "delete": 4, "claim": 30, "updProposer": 2, "updChallenger": 2, "batchInfo": 1, "params": 1, "multi": 8},
 		NonTriv: func(w *l1World) bool { return w.succ["deposit"] >= 1 && w.succ["claim"] >= 1 && len(w.m.Bridges) >= 2 }}
 	core.Register(&core.Scenario{ID: "C01", Level: "exploration", Run: runL1(c01), Components: l1Components, Assumptions: l1Assume,
 		Rule: "seeded multi-bridge histories (create, deposit, propose, delete, claim incl. cross-bridge replays, role updates, third-party sends to escrows) with crashes, dependency faults on the bank/community-pool seams and out-of-gas aborts; after every block the bank's complete balance table and every bridge's exported state are compared with a ledger model; non-trivial = >=2 bridges, >=1 successful deposit and >=1 successful claim",
@@ -82,7 +82,7 @@ func init() {
 		RequiredProbes: []string{"reject.claim.not-final", "reject.delete.final-output", "time.boundary-targeted", "finality.band-observed"}})
 
 	c11 := &l1Profile{Prop: "C11", Blocks: [2]int{15, 70}, MaxTx: 5, Crash: 5, Periods: []time.Duration{time.Second, 5 * time.Second, time.Hour},
-		W:       map[string]int{"create": 8, "deposit": 4, "propose": 50, "delete": 30, "claim": 8, "updProposer": 3, "updChallenger": 3, "batchInfo": 3},
+		W:       map[string]int{"create": 8, "deposit": 4, "propose": 50, "delete": 30, "claim": 8, "updProposer": 3, "updChallenger": 3, "batchInfo": 3, "multi": 6},
 		NonTriv: func(w *l1World) bool { return w.succ["propose"] >= 3 && w.succ["delete"] >= 1 }}
 	core.Register(&core.Scenario{ID: "C11", Level: "exploration", Run: runL1(c11), Components: l1Components, Assumptions: l1Assume,
 		Rule: "seeded histories of propose (right / wrong index, higher / equal / lower L2 block), delete (any index, any signer) and re-propose over several bridges with some outputs becoming final; after every block the paginated OutputProposals listing, OutputProposal(i), LastFinalizedOutput and the exported log are compared with a model log and the structural invariants are checked directly; non-trivial = >=3 accepted proposals and >=1 deletion",
